@@ -47,6 +47,17 @@ property text: remove/clear touch no file, the re-created child CONTINUES from w
 so (a)-(d) apply unchanged and the oracle's bookkeeping is not reset (a removed child that is never re-created still
 contributes its old value); the dropped value objects may be stale and are excluded from (d).
 
+STALE HANDLES: `['keep', mi, labelvalues, name]` keeps the child object `parent.labels(*labelvalues)` under a handle name;
+after remove()/clear() and a new labels() there are then TWO live child objects on the same keys, and
+`['old-inc' | 'old-dec' | 'old-set' | 'old-observe', name, amount(, time)]` updates through the KEPT object (its value
+objects keep their original indices in the value-level log).  The closure re-binds EVERY value object it ever made on an
+identity change, so an update through an object is exact whenever no OTHER object has written the same key under the
+current identity since this object last read the file (construction or re-binding).  The harness tracks exactly that
+(`Inst.stale`): histories where it always holds keep all oracles ('stale-handle:epoch-single-object' when every key
+has one updating object per identity epoch, 'stale-handle:sequential-handover' otherwise); an update through a stale
+object loses updates in the library itself (the known two-live-values behaviour) — from there on the history
+('stale-handle:interleaved') keeps only the no-exception, file-level and model-comparison checks.  (d) skips stale objects.
+
 FALSY identities: the identity pool contains 0 (and the empty string, which the clean library accepts end to end: files
 `counter_.db`, pid label '') — as the initial identity, as the target of a change, as the identity returned to, as a
 reused pid of a new worker and as the argument of mark_process_dead; the systematic families are re-run with 10 or 11
@@ -54,6 +65,7 @@ renamed to 0 / '' (`rename_ids`).  Harness invariant,
 reported as C09:dropped-child-used: after a remove/clear no logged inc/set/get refers to a dropped value object.
 """
 import hashlib
+import json
 import os
 import time
 
@@ -287,6 +299,17 @@ def oracle_d(res, i, objs, pid, after, skip=()):
                 idx, obj._params[1:5], obj._value, obj._timestamp, fn, held[0]), i))
 
 
+class Inst:
+    """one child metric object as the value-level log sees it: the value objects it constructed"""
+
+    def __init__(self, key, idxs):
+        self.key = key          # (mi, lvs)
+        self.idxs = set(idxs)   # value-object indices in the worker's log
+        self.stale = False      # another object wrote this key (same identity) since this one last read the file
+        self.kept = None        # handle name when the script keeps the object
+        self.handle = None
+
+
 class Worker:
     """one worker generation: its own value class + identity cell + metric objects + value-object numbering"""
 
@@ -295,23 +318,68 @@ class Worker:
         self.cls, self.cell = sim.cell_class(pid, log)
         self.proc = c08.RealProc(self.cls, pool, sim.use, sim.clock, variant)
         self.ids = {pid}
-        self.current = set()    # (mi, lvs) of the children the parent metrics hold now
+        self.cur = {}           # (mi, lvs) -> Inst the parent metric holds now
+        self.insts = []
+        self.handles = {}       # handle name -> Inst kept by the script
         self.removed = set()    # (mi, lvs) removed/cleared and not re-created yet
-        self.dropped = set()    # value-object indices of dropped children (never used again)
+        self.dropped = set()    # value-object indices of dropped children that nobody kept (never used again)
+        self.remembered = pid   # the identity the closure is bound to (changes at the first value-level call after a change)
+        self.writers = {}       # this identity epoch: (mi, lvs) -> ids of the objects that updated it
+        self.handover = False   # some key was updated through two objects within one epoch
+        self.unsafe = False     # an update went through an object whose cache was stale: the library itself loses updates
+
+    def sync(self):
+        """a value-level call happened: if the identity changed, every value object was re-bound (re-read its file)"""
+        if self.cell[0] != self.remembered:
+            self.remembered = self.cell[0]
+            for x in self.insts:
+                x.stale = False
+            self.writers = {}
+
+    def child(self, mi, lvs):
+        """proc.child + bookkeeping of newly constructed value objects; -> (child metric object, Inst | None)"""
+        n0 = len(self.log.objs)
+        c = self.proc.child(mi, lvs)
+        if len(self.log.objs) > n0:
+            self.sync()
+            inst = Inst((mi, lvs), range(n0, len(self.log.objs)))
+            self.insts.append(inst)
+            self.cur[(mi, lvs)] = inst
+        return c, self.cur.get((mi, lvs))
+
+    def wrote(self, inst, needs_cache):
+        self.sync()
+        if needs_cache and inst.stale:
+            self.unsafe = True
+        for x in self.insts:
+            if x is not inst and x.key == inst.key:
+                x.stale = True
+        ws = self.writers.setdefault(inst.key, set())
+        ws.add(id(inst))
+        if len(ws) > 1:
+            self.handover = True
+
+    def skip_d(self):
+        out = set(self.dropped)
+        for x in self.insts:
+            if x.stale:
+                out |= x.idxs
+        return out
 
     def drop(self, pool, mi, lvs=None):
         """the children of metric mi (only the one with label values lvs, if given) were removed from the parent"""
-        md = pool[mi]
-        gone = [c for c in self.current if c[0] == mi and (lvs is None or c[1] == lvs)]
+        gone = [c for c in self.cur if c[0] == mi and (lvs is None or c[1] == lvs)]
         for c in gone:
-            self.current.discard(c)
+            inst = self.cur.pop(c)
             self.removed.add(c)
-        k = len(md['labels'])
-        for idx, obj in enumerate(self.log.objs):
-            prm = getattr(obj, '_params', None)
-            if prm is not None and prm[1] == md['name'] and any(tuple(prm[4][:k]) == c[1] for c in gone):
-                self.dropped.add(idx)
+            if inst.kept is None:
+                self.dropped |= inst.idxs
         return len(gone)
+
+
+def needs_cache(md, uop):
+    """does this update read the value object's cached value (everything except a plain set)"""
+    return not (uop in ('set', 'reset'))
 
 
 def run_history(scen, want_sample=False):
@@ -335,6 +403,8 @@ def run_history(scen, want_sample=False):
         raw_after = mpsim.raw_snapshot(sim.dir)
         pids_seen = {scen['pid0']}
         canon = {}
+        lossy = False
+        handover = False
 
         def spawn(pid):
             nonlocal w, last_pid, ngen
@@ -395,22 +465,34 @@ def run_history(scen, want_sample=False):
                 w.log.set_pid_logged(st[1])
                 res.count('pid:' + ('return-to-seen' if st[1] in pids_seen else 'new'))
                 pids_seen.add(st[1])
+            elif op.startswith('old-') and st[1] not in w.handles:
+                res.count('stale-handle:no-such-handle')    # (shrunk lists / after a new worker) nothing to do
             else:
-                mi = st[1]
+                old = op.startswith('old-')
+                if old:
+                    inst = w.handles[st[1]]
+                    mi, lvs = inst.key
+                    uop = {'old-inc': 'inc', 'old-dec': 'dec', 'old-set': 'set', 'old-observe': 'obs'}[op]
+                else:
+                    mi = st[1]
+                    lvs = c08.lvs_of(pool[mi], st[2]) if len(st) > 2 else ()
+                    uop = op
                 md = pool[mi]
-                lvs = c08.lvs_of(md, st[2]) if len(st) > 2 else ()
                 expect = None
                 proc = w.proc
                 try:
                     if op == 'create':
-                        proc.metric(mi)
-                        if not md['labels']:
+                        if md['labels']:
+                            proc.metric(mi)
+                        else:
+                            w.child(mi, ())
                             oracle.create_child(mi, ())
                     elif op == 'read':
                         sim.use(w.cls)
-                        list(proc.metric(mi).collect())
                         if not md['labels']:
+                            w.child(mi, ())
                             oracle.create_child(mi, ())
+                        list(proc.metric(mi).collect())
                     elif op in ('remove', 'clear'):
                         if md['labels']:
                             sim.use(w.cls)
@@ -421,37 +503,64 @@ def run_history(scen, want_sample=False):
                                 proc.metric(mi).clear()
                                 n_gone = w.drop(pool, mi)
                             res.count('%s:%s' % (op, 'existing-child' if n_gone else 'nothing-to-drop'))
-                    else:
-                        proc.child(mi, lvs)
-                        oracle.create_child(mi, lvs)
-                        if (mi, lvs) in w.removed:
+                    elif op == 'keep':
+                        if md['labels']:
+                            c, inst = w.child(mi, lvs)
+                            oracle.create_child(mi, lvs)
                             w.removed.discard((mi, lvs))
-                            res.count('relabel-after-remove')
-                        w.current.add((mi, lvs))
-                        if op == 'reset':
+                            inst.kept, inst.handle = st[3], c
+                            w.handles[st[3]] = inst
+                    else:
+                        if old:
+                            c = inst.handle
+                            res.count('stale-handle:update-through-%s-object' % ('current' if w.cur.get(inst.key) is inst else 'old'))
+                        else:
+                            c, inst = w.child(mi, lvs)
+                            oracle.create_child(mi, lvs)
+                            if (mi, lvs) in w.removed:
+                                w.removed.discard((mi, lvs))
+                                res.count('relabel-after-remove')
+                        if uop == 'reset':
                             sim.use(w.cls)
-                            proc.child(mi, lvs).reset()
+                            c.reset()
+                            w.wrote(inst, False)
                             oracle.excluded.add(mi)
-                        elif op != 'child':
-                            x = lib.from_bits(st[3])
-                            t = lib.from_bits(st[4]) if len(st) > 4 else sim.clock.now
-                            expect = 'RuntimeError' if (c08.is_mostrecent(md) and op in ('inc', 'dec')) else None
-                            raised = proc.update(mi, lvs, op, x, t)
+                        elif uop != 'child':
+                            x = lib.from_bits(st[2] if old else st[3])
+                            tb = st[3:4] if old else st[4:5]
+                            t = lib.from_bits(tb[0]) if tb else sim.clock.now
+                            expect = 'RuntimeError' if (c08.is_mostrecent(md) and uop in ('inc', 'dec')) else None
+                            sim.use(w.cls)
+                            sim.clock.now = t
+                            try:
+                                if uop == 'inc':
+                                    c.inc(x)
+                                elif uop == 'dec':
+                                    c.dec(x)
+                                elif uop == 'obs':
+                                    c.observe(x)
+                                else:
+                                    c.set(x)
+                            except Exception as e:  # noqa
+                                raised = type(e).__name__
                             if len(world.ops) > nlog:
                                 oracle.touched(pid)
                             if raised is None:
-                                oracle.update(pid, mi, lvs, op, x, t)
+                                if inst is not None:
+                                    w.wrote(inst, needs_cache(md, uop))
+                                oracle.update(pid, mi, lvs, uop, x, t)
                     if raised != expect:
                         res.failures.append(('C09:raises', 'step %r under identity %s raised %s, expected %s' % (st, pid, raised, expect), i))
                 except Exception as e:  # noqa
                     raised = type(e).__name__
                     res.failures.append(('C09:raises', 'step %r under identity %s raised %s: %s' % (st, pid, raised, e), i))
                 if len(world.ops) > nlog:
+                    w.sync()
                     oracle.touched(pid)
                 for o in world.ops[nlog:]:
                     if o[0] in ('I', 'S', 'G') and o[1] in w.dropped:
                         res.failures.append(('C09:dropped-child-used', 'step %r: value-level call %r goes to value object %d of a child '
-                                             'that was removed from its parent' % (st, o[:2], o[1]), i))
+                                             'that was removed from its parent and that the script did not keep' % (st, o[:2], o[1]), i))
             after = mpsim.snapshot(sim.dir)
             raw_after = mpsim.raw_snapshot(sim.dir)
             oracle_unreadable(res, i, after)
@@ -462,9 +571,19 @@ def run_history(scen, want_sample=False):
             except Exception as e:  # noqa
                 res.failures.append(('C09:raises', 'collect() raised %s: %s' % (type(e).__name__, e), i))
                 continue
+            if lossy or (w is not None and w.unsafe):
+                # an update went through a value object whose cache another object had outdated: the library loses
+                # updates there by construction (known two-live-values behaviour); from here on only the file-level
+                # oracles and the model comparison apply
+                lossy = True
+                continue
             canon = oracle_bc(res, i, oracle, collected)
             if kind == 'op' and len(world.ops) > nlog and raised is None:
-                oracle_d(res, i, w.log.objs, w.cell[0], after, w.dropped)
+                oracle_d(res, i, w.log.objs, w.cell[0], after, w.skip_d())
+            if w is not None and w.handover:
+                handover = True
+        if any(k.startswith('stale-handle:update-through') for k in res.counts):
+            res.count('stale-handle:' + ('interleaved' if lossy else ('sequential-handover' if handover else 'epoch-single-object')))
         res.line = mpsim.hist_request(scen['pid0'], world.ops)
         res.nops = len(world.ops)
         res.gets = dict(world.gets)
@@ -760,12 +879,93 @@ def relabel_insertions(steps):
             yield a + [R] + b[:1] + [['pid', 11]] + b[1:]
             yield a + [['pid', 11], R, ['pid', 10]] + b
             yield a + [R, ['pid', 11]] + b[:1] + [['pid', 10]] + b[1:]
+            if R[0] == 'clear' and i % 2:
+                continue        # (time) clear gets the remaining placements at every other position only
             yield a + [['pid', 11]] + b[:1] + [['pid', 10], R, relabel, ['pid', 11]] + b[1:]
             yield a + [R, ['D', 10], ['W', 10]] + b
             yield a + [['D', 10], ['W', 10], relabel, R] + b
             yield a + [R, ['W', 10]] + b
             yield a + [R, ['W', 11]] + b[:1] + [R, ['W', 10]] + b[1:]
             yield a + [R, ['pid', 11], relabel, ['D', 10]] + b
+
+
+# ================================================================================================== stale handles
+def stale_pools():
+    """(pool, first update, update through the kept object, update through the young object) per labelled metric kind"""
+    t = [B(10.0), B(11.0), B(12.0)]
+    return [
+        ([mdef('counter', 'cl', ['l'])], ['inc', 0, ['x'], B(1.0)], ['old-inc', 'h', B(2.0)], ['inc', 0, ['x'], B(4.0)]),
+        ([mdef('gauge', 'ga', ['l'], 'all')], ['set', 0, ['x'], B(3.0), t[0]], ['old-inc', 'h', B(2.0), t[1]], ['inc', 0, ['x'], B(4.0), t[2]]),
+        ([mdef('gauge', 'gv', ['l'], 'livesum')], ['inc', 0, ['x'], B(1.0), t[0]], ['old-set', 'h', B(5.0), t[1]], ['dec', 0, ['x'], B(0.5), t[2]]),
+        ([mdef('histogram', 'hl', ['l'], '', 'small')], ['obs', 0, ['x'], B(1.0)], ['old-observe', 'h', B(3.0)], ['obs', 0, ['x'], B(2.5)]),
+        ([mdef('summary', 's', ['l']), mdef('gauge', 'gm', ['l'], 'mostrecent')], ['obs', 0, ['x'], B(1.0)], ['old-observe', 'h', B(2.0)],
+         ['obs', 0, ['x'], B(4.0)]),
+    ]
+
+
+def stale_shapes(A, O, Y):
+    """keep; remove/clear; labels() again (young object); then updates through the OLD and the YOUNG object around
+    identity changes, new workers and deaths.  The last two interleave both objects within one identity."""
+    K, R, C, L = ['keep', 0, ['x'], 'h'], ['remove', 0, ['x']], ['clear', 0], ['child', 0, ['x']]
+    P = lambda q: ['pid', q]
+    return [
+        [A, K, R, L, P(11), O],                                 # the old object only, in the new identity
+        [A, K, C, L, P(11), O, O, P(10), O],                    # ... and back in the first identity
+        [A, K, R, L, O, P(11), Y],                              # old before the change, young after
+        [A, K, R, L, O, P(11), Y, P(10), O],                    # old, change, young, change, old
+        [A, K, R, L, P(11), O, P(12), Y, P(11), ['read', 0], O],
+        [K, A, R, P(11), L, O, P(10), Y],                       # keep creates the child; change between remove and labels()
+        [A, K, R, L, P(11), O, ['W', 11], Y],                   # the worker restarts: the handle is gone
+        [A, K, R, L, ['D', 99], P(11), O, ['D', 10], Y],        # death of the identity the worker has left
+        [A, K, R, L, P(11), O, ['D', 11], ['W', 10], Y, P(11), Y],
+        [A, K, R, L, Y, P(11), O, O],                           # young in the first identity, old in the second
+        [A, K, R, L, ['keep', 0, ['x'], 'h2'], R, L, P(11), O, P(12), [O[0], 'h2'] + O[2:], P(10), Y],    # two kept generations
+        [A, K, R, L, O, Y, P(11), Y],                           # INTERLEAVED: the young object is stale when it is used
+        [A, K, R, L, Y, O, P(11), O, Y, P(10), Y],              # INTERLEAVED
+    ]
+
+
+def stale_histories():
+    for pool, A, O, Y in stale_pools():
+        shapes = stale_shapes(A, O, Y)
+        for k, steps in enumerate(shapes):
+            yield pool, steps
+        # an identity change at every position of the three two-object bases (the tracker decides what stays checkable)
+        for base in (shapes[2][:5] + [shapes[2][4]], shapes[9][:5] + [Y], shapes[3]):
+            base = [st for st in base if st[0] != 'pid']
+            for i in range(len(base) + 1):
+                yield pool, base[:i] + [['pid', 11]] + base[i:]
+                for j in range(i + 1, len(base) + 1, 3):
+                    yield pool, base[:i] + [['pid', 11]] + base[i:j] + [['pid', 10]] + base[j:]
+
+
+def sprinkle_stale(rng, pool, steps):
+    """keep / old-* steps at random places of a random history (handles are forgotten at a new worker)"""
+    out = []
+    handles = []    # (name, mi)
+    n = 0
+    lastt = 5.0
+    for st in steps:
+        out.append(st)
+        if st[0] == 'W':
+            handles = []
+        if st[0] in ('set', 'inc', 'dec') and len(st) > 4:
+            lastt = lib.from_bits(st[4])
+        if st[0] in ('inc', 'dec', 'set', 'obs', 'child') and pool[st[1]]['labels'] and rng.random() < 0.3:
+            n += 1
+            handles.append(('h%d' % n, st[1]))
+            out.append(['keep', st[1], st[2], 'h%d' % n])
+        elif handles and rng.random() < 0.25:
+            name, mi = rng.choice(handles)
+            md = pool[mi]
+            if md['kind'] == 'counter':
+                out.append(['old-inc', name, B(c08.gen_value(rng, md, 'inc'))])
+            elif md['kind'] in ('summary', 'histogram'):
+                out.append(['old-observe', name, B(c08.gen_value(rng, md, 'obs'))])
+            else:
+                op = rng.choice(['set', 'inc', 'dec'])
+                out.append(['old-' + op, name, B(c08.gen_value(rng, md, op)), B(lastt)])
+    return out
 
 
 # ================================================================================================== real fork
@@ -776,7 +976,7 @@ def gen_fork_history(rng, all_modes):
         if st[0] == 'pid':
             if phases[-1]:
                 phases.append([])
-        elif st[0] not in ('reset', 'remove', 'clear'):
+        elif st[0] not in ('reset', 'remove', 'clear', 'keep') and not st[0].startswith('old-'):
             phases[-1].append(st)
     if not phases[-1]:
         phases.pop()
@@ -891,6 +1091,90 @@ def run_fork_history(scen):
     return res
 
 
+# ================================================================================================== os.fork / raw libc fork
+RAWFORK_VARIANTS = [
+    {'rawfork': True, 'order': ['os', 'raw'], 'a0': B(1.0), 'v0': B(3.0), 'incs': [B(2.0), B(4.0)], 'sets': [B(5.0), B(6.0)],
+     'a_end': B(8.0), 'v_end': B(7.0)},
+    {'rawfork': True, 'order': ['raw', 'os'], 'a0': B(0.5), 'v0': B(-1.0), 'incs': [B(16.0), B(0.25)], 'sets': [B(2.0), B(-0.0)],
+     'a_end': B(1024.0), 'v_end': B(9.0)},
+    {'rawfork': True, 'order': ['raw', 'raw', 'os'], 'a0': B(1.0), 'v0': B(1.0), 'incs': [B(2.0), B(4.0), B(8.0)],
+     'sets': [B(2.0), B(3.0), B(4.0)], 'a_end': B(16.0), 'v_end': B(5.0)},
+]
+CKEY = '["c", "c_total", {}, "h"]'
+GKEY = '["g", "g", {}, "h"]'
+
+
+def run_rawfork(case):
+    """the library's DEFAULT value class (os.getpid) in a helper subprocess that forks through os.fork() and through the
+    raw libc fork(); -> Result.  A child writes only files carrying ITS real pid, never the parent's; totals conserved."""
+    res = Result()
+    status, doc, err = mpsim.run_rawfork_helper(case)
+    res.count('raw-fork:variants')
+    if status != 'ok':
+        res.failures.append(('C09:raises', 'the fork helper ended with %s; stderr: %s' % (status, err.strip()[-400:]), 0))
+        return res
+    if not doc['multiprocess']:
+        res.failures.append(('C09:raises', 'the default value class is not the multiprocess one although PROMETHEUS_MULTIPROC_DIR is set', 0))
+        return res
+    parent = doc['parent']
+    sig = 'C09:raw-fork-writes-parent-files'
+    prev = doc['before']
+    val = lambda snap, fn, key: [lib.from_bits(v) for k, v, t in snap.get(fn, {'entries': []})['entries'] if k == key]
+    incs = [lib.from_bits(case['a0'])]
+    gauges = {str(parent): lib.from_bits(case['v0'])}
+    for j, ch in enumerate(doc['children']):
+        if ch.get('unavailable'):
+            res.count('raw-fork:unavailable')
+            continue
+        kind = {'os': 'os.fork()', 'raw': 'raw libc fork()'}[ch['kind']]
+        res.count('raw-fork:' + ch['kind'])
+        cpid = ch['reported']
+        k, v = lib.from_bits(case['incs'][j]), lib.from_bits(case['sets'][j])
+        incs.append(k)
+        gauges[str(cpid)] = v
+        if ch['status'] != 0 or cpid is None or cpid != ch['fork_returned'] or cpid == parent:
+            res.failures.append(('C09:raises', 'child %d (%s): exit status %s, fork returned %s, child reports pid %s' % (
+                j, kind, ch['status'], ch['fork_returned'], cpid), j))
+            continue
+        aft = ch['after']
+        for fn in sorted(prev):          # (b) the child left every file that existed byte-identical, the parent's first of all
+            if fn not in aft or (aft[fn]['sha'], aft[fn]['size']) != (prev[fn]['sha'], prev[fn]['size']):
+                whose = "the PARENT's file" if fn.endswith('_%s.db' % parent) else 'the existing file'
+                res.failures.append((sig, 'child %d (%s, real pid %s) rewrote %s %s: %r -> %r' % (
+                    j, kind, cpid, whose, fn, [e[1:] for e in prev[fn]['entries']], [e[1:] for e in aft.get(fn, {'entries': []})['entries']]), j))
+        for fn, key, want in (('counter_%s.db' % cpid, CKEY, k), ('gauge_all_%s.db' % cpid, GKEY, v)):   # (a)
+            got = val(aft, fn, key)
+            if len(got) != 1 or not feq(got[0], want):
+                res.failures.append((sig, "child %d (%s, real pid %s): its update (%r) is not in its own file %s (holds %r); files now: %s" % (
+                    j, kind, cpid, want, fn, got, sorted(aft)), j))
+        for fn in sorted(set(aft) - set(prev)):
+            if not fn.endswith('_%s.db' % cpid):
+                res.failures.append((sig, 'child %d (%s, real pid %s) created %s' % (j, kind, cpid, fn), j))
+        prev = aft
+    incs.append(lib.from_bits(case['a_end']))
+    gauges[str(parent)] = lib.from_bits(case['v_end'])
+    end = doc['end']
+    total = 0.0
+    for a in incs:
+        total += a
+    on_disk = 0.0
+    for fn in end:
+        for x in val(end, fn, CKEY):
+            on_disk += x
+    if not feq(on_disk, total):      # (c)
+        res.failures.append(('C09:conservation', 'counter: the files hold %r in total, the increments issued add up to %r' % (on_disk, total), 0))
+    coll = {n: {(sn, tuple(map(tuple, ls))): lib.from_bits(v) for sn, ls, v in ss} for n, ss in doc['collected']}
+    if not feq(coll.get('c', {}).get(('c_total', ()), float('nan')), total):
+        res.failures.append(('C09:conservation', 'collected c_total %r, the increments issued add up to %r' % (coll.get('c'), total), 0))
+    want_g = {('g', (('pid', p),)): v for p, v in gauges.items()}
+    got_g = coll.get('g', {})
+    if set(got_g) != set(want_g) or any(not feq(got_g[k], want_g[k]) for k in want_g):
+        res.failures.append(('C09:per-pid-gauge', 'collected gauge %r, each process last set %r' % (got_g, want_g), 0))
+    res.key = hashlib.md5(json.dumps(case, sort_keys=True).encode('utf-8')).hexdigest()
+    res.sample = {'rawfork': case['order'], 'files_at_end': sorted(end)}
+    return res
+
+
 # ================================================================================================== candidate finding
 def probe_two_live_values(ctx):
     """two live value objects bound to the same (file, key) lose updates even without an identity change"""
@@ -956,7 +1240,7 @@ class Reporter:
                 continue
             seen.add(sig)
             case = scen
-            if not scen.get('fork'):
+            if not scen.get('fork') and not scen.get('rawfork'):
                 case = dict(scen, steps=scen['steps'][:i + 1])
                 if sig not in self.shrunk and len(self.shrunk) < 3:
                     self.shrunk.add(sig)
@@ -975,7 +1259,7 @@ class Reporter:
             return
         what = divs[0]
         case = scen
-        if not scen.get('fork') and self.shrunk_div < 2:
+        if not scen.get('fork') and not scen.get('rawfork') and self.shrunk_div < 2:
             self.shrunk_div += 1
             ctx = self.ctx
 
@@ -1012,7 +1296,8 @@ def run(ctx):
                 'worker generations with identity changes inside and deaths between and inside them; one case = one history, '
 'family "relabel": 3 base scripts on labelled metrics with remove()/clear() of the next child at every position and '
                 'an identity change / new worker / death at every place relative to it, plus remove/clear sprinkled into all random '
-                'histories; the falsy identities 0 and "" occur as initial identity, change target, identity returned to, reused pid '
+                'histories; stale-handle histories (a kept old child object next to its re-created successor, updated around identity changes); '
+                '3 real-process cases (helper subprocess, default value class, os.fork and raw libc fork); the falsy identities 0 and "" occur as initial identity, change target, identity returned to, reused pid '
                 'and dead pid (systematic families re-run with 10/11 renamed, ~40 % / ~10 % of the random ones); '
                 'observed after every step; non-trivial when it contains an identity change, a new worker or a death; '
                 'distinct by value-level log + final collection')
@@ -1030,6 +1315,9 @@ def run(ctx):
     probe_two_live_values(ctx)
     batch = []
     samples = 3
+    for case in RAWFORK_VARIANTS if quick else RAWFORK_VARIANTS * 4:
+        batch.append((case, run_rawfork(case)))
+    flush(ctx, rep, batch)
     for bi, (pool, steps) in enumerate(bases()):
         rename = [{11: 0}, {10: 0}, {}][bi % 3]     # change to 0 and on to a third / initial identity 0 and back to it / none
         for k, ins in enumerate(insertions(steps, 10, 11, 12)):
@@ -1068,6 +1356,13 @@ def run(ctx):
             if len(batch) >= 60:
                 flush(ctx, rep, batch)
     flush(ctx, rep, batch)
+    for k, (pool, steps) in enumerate(stale_histories()):
+        scen = rename_ids({'pool': pool, 'pid0': 10, 'steps': steps, 'variant': 0}, [{}, {}, {11: 0}][k % 3])
+        batch.append((scen, run_history(scen)))
+        ctx.count('histories:stale-handle-systematic')
+        if len(batch) >= 60:
+            flush(ctx, rep, batch)
+    flush(ctx, rep, batch)
     for k in range(n_fork):
         scen = gen_fork_history(ctx.rng, all_modes)
         batch.append((scen, run_fork_history(scen)))
@@ -1077,6 +1372,8 @@ def run(ctx):
             ctx.count('histories:skipped-for-time', n_world - k)
             break
         scen = gen_world(ctx.rng, all_modes, long=(k % 6 == 5))
+        if k % 8 == 3:
+            scen['steps'] = sprinkle_stale(ctx.rng, scen['pool'], scen['steps'])
         batch.append((scen, run_history(scen)))
         ctx.count('histories:generations-random')
         if len(batch) >= 40:
@@ -1087,6 +1384,8 @@ def run(ctx):
             ctx.count('histories:skipped-for-time', n_random - k)
             break
         scen = gen_history(ctx.rng, all_modes, long=(k % 8 == 7))
+        if k % 8 == 5:
+            scen['steps'] = sprinkle_stale(ctx.rng, scen['pool'], scen['steps'])
         batch.append((scen, run_history(scen, samples > 0)))
         samples -= 1
         ctx.count('histories:random')
@@ -1104,6 +1403,9 @@ def replay(ctx, case):
         return 0
     if scen.get('probe'):
         probe_two_live_values(ctx)
+    elif scen.get('rawfork'):
+        for sig, what, i in run_rawfork(scen).failures:
+            ctx.fail(sig, what, scen)
     elif scen.get('fork'):
         res = run_fork_history(scen)
         for sig, what, i in res.failures:
